@@ -21,13 +21,16 @@ class HookReader(hb.ScriptReader):
         super().__init__([(g, d) for g, d, _ in items], eof=eof, cuts=cuts)
         self.hooks = [h for _, _, h in items]
         self.final_hook = None
+        self.final_done = False
 
     async def _next_item(self):
         if not self.script:
-            if self.final_hook is not None:
+            if not self.final_done:
+                self.final_done = True
                 await asyncio.sleep(self.final_gap)
                 h, self.final_hook = self.final_hook, None
-                h()
+                if h is not None:
+                    h()
             return await super()._next_item()
         gap, data = self.script.pop(0)
         hook = self.hooks.pop(0)
